@@ -71,7 +71,56 @@ def cells(lo=0.5, hi=500.0, gmin=0.02):
         st.builds(lambda x, y, z, al: [x, y, z, al, al, al], a, a, a, fl(25.0, 115.0)),
         st.builds(lambda x, y, z: [x, y, z, 90.0, 120.0, 90.0], a, a, a),
         st.builds(lambda x, y, z: [x, y, z, 120.0, 90.0, 90.0], a, a, a))
-    return st.one_of(general, general, oblique, oblique, boundary, fam, near, exact, ties, pseudo)
+    # cells whose six parameters are whole numbers and are TYPED as Python ints (cell = [3, 4, 5, 80, 95, 100], the way
+    # cells are written in scripts and tests): every function must treat them like the equal float values
+    ilo, ihi = max(1, int(math.ceil(lo))), max(2, min(40, int(hi)))
+    il = st.integers(ilo, ihi)
+    integral = st.one_of(
+        st.builds(_integral_cell, il, il, il, st.integers(50, 130), st.integers(50, 130), fl(0.0, 1.0), st.just(gmin)),
+        st.builds(lambda x, y, z: [x, y, z, 90, 90, 90], il, il, il),
+        st.builds(lambda x, z: [x, x, z, 90, 90, 120], il, il),
+        st.builds(lambda x, y, z, be: [x, y, z, 90, be, 90], il, il, il, st.integers(60, 125)))
+    return st.one_of(general, general, oblique, oblique, boundary, fam, near, exact, ties, pseudo, integral)
+
+
+def _integral_cell(x, y, z, al, be, t, gmin):
+    """whole-number cell: gamma is the integer picked by t from the interval allowed by Gram >= gmin (+ margin)"""
+    ca, cb, sa, sb = math.cos(math.radians(al)), math.cos(math.radians(be)), math.sin(math.radians(al)), math.sin(math.radians(be))
+    w = math.sqrt(max(sa * sa * sb * sb - (gmin + 0.01), 0.0))
+    g_lo = math.degrees(math.acos(min(1.0, ca * cb + w)))
+    g_hi = math.degrees(math.acos(max(-1.0, ca * cb - w)))
+    k_lo, k_hi = int(math.ceil(g_lo)), int(math.floor(g_hi))
+    ga = 90 if k_hi < k_lo else min(k_hi, k_lo + int(t * (k_hi - k_lo + 1)))
+    c = [x, y, z, al, be, ga]
+    return c if O.gram_det(c) >= gmin else [x, y, z, 90, 90, 90]
+
+
+def whole_number_variant(cell, how):
+    """(cell values as floats, object handed to the library).  how = 'int-list' / 'int-array': the six parameters are rounded
+    to whole numbers (the rounded cell conforms to the same crystal system: equal values stay equal, 90 and 120 stay) and
+    typed as Python ints / an integer ndarray, provided the rounded cell is still comfortably valid; 'float-array': a
+    read-only float ndarray; otherwise a float list."""
+    if how in ("int-list", "int-array"):
+        r = [int(round(x)) for x in cell]
+        if min(r[:3]) >= 1 and O.gram_det(r) >= 0.05:
+            return [float(x) for x in r], cell_arg(r, how == "int-array")
+    return list(cell), cell_arg(cell, how == "float-array")
+
+
+def is_int_typed(cell):
+    return all(isinstance(x, int) and not isinstance(x, bool) for x in cell)
+
+
+def cell_arg(raw, as_array=False):
+    """The object handed to the library for a generated cell: integer-typed cells stay integer-typed (list of ints or an
+    integer ndarray), all others are float lists / float arrays; arrays are read-only."""
+    if is_int_typed(raw):
+        if not as_array:
+            return [int(x) for x in raw]
+        a = np.array(raw, dtype=int)
+        a.setflags(write=False)
+        return a
+    return O.ro(np.array(raw, float)) if as_array else [float(x) + 0.0 for x in raw]
 
 
 def perturbed(cell, rel):
